@@ -176,7 +176,7 @@ CLAIMS = {
   "asserts_force_pow2 (the list forces trace length and every relevant ratio to be powers of two, ratio <= trace), field_quotient_exact (so the "
   "field quotients the code computes are the natural ones). Tied to the code by ~1000 mutated dynamic public inputs (two bases: shipped, and an "
   "all-builtins-on instance found by local search against the translated list) through real code, Lean model and a Python interpreter of the list.",
-  "WellFormed(D) is proved for the recursive layout's generated data (others: same shape, exercised by the correspondence). The dynamic layout's mod.rs is a hand-written model (tied by correspondence); only its assertion list and evaluators are translated.",
+  "WellFormed(D) is proved for the generated data of all six static layouts by a decidable checker (wellFormedB_iff), giving validate_pi_iff_static_layouts with no hypothesis left. The dynamic layout's mod.rs is a hand-written model (tied by correspondence); only its assertion list and evaluators are translated.",
   "Lean 4 machine-checked proof over a translator-instantiated model + correspondence check", "7/C14"),
  'C17': ("proof",
   "PARTIAL. Lean theorems (Props/C17.lean): every model function is total (termination checked by Lean); after config validation every loop "
